@@ -452,7 +452,9 @@ def check(run: Run) -> None:
                         "combiner graphs deepest-first (a combiner reads the combiners below it) in one ordered pass (shared with C11.b)"):
         from . import c11
         sub = Run("C01", run.tier, run.tree, quiet=True)
-        c11.check(sub)
+        sub.is_sub = True
+        if not getattr(run, "is_sub", False):
+            c11.check(sub)
         run.evaluations += sub.evaluations
         run.count(1, "C01.g")
         for f in sub.findings:
